@@ -246,8 +246,9 @@ theorem sorted_dropWhile (t0 : Tok) (rest : List Tok) (h : SortedLines (t0 :: re
   | cons x xs =>
     rw [hd] at ht hpw
     have hx : (x.line == t0.line) = false := by
-      have := List.head_dropWhile_not (fun a : Tok => a.line == t0.line) rest (by rw [hd]; simp)
-      simpa [hd] using this
+      have := List.head?_dropWhile_not (fun a : Tok => a.line == t0.line) rest
+      rw [hd] at this
+      simpa using this
     have hxm : x ∈ rest := hsuf.subset (by rw [hd]; simp)
     have hx0 := h0 x hxm
     have hxne : x.line ≠ t0.line := by simpa using hx
@@ -445,8 +446,9 @@ theorem renderLoop_pieces (comments : Array Bytes) (hcm : wfComments comments) :
               split <;> simp [Piece.srcItems, Piece.src, Piece.outComment]
             have hpiece : Piece.srcItems (Piece.toks (4 * z).toNat names m lts com semis) =
                 g.map (fun t => Item.tok t.text) ++ cmtRange (getC comments) t0.line 1 := by
-              simp only [Piece.srcItems, Piece.src, Piece.outComment]
-              rw [← hX2, ← hsplit, cmtRange_one, ← hcom, strip_isEmpty hcw]
+              have he : (stripTrailingSpaces com).isEmpty = com.isEmpty := strip_isEmpty hcw
+              simp only [Piece.srcItems, Piece.src, Piece.outComment, he]
+              rw [← hX2, ← hsplit, cmtRange_one, ← hcom]
             simp only [List.flatMap_append, List.flatMap_cons, List.flatMap_nil, hF7b, hb, hpiece,
               List.append_nil, List.append_assoc, List.nil_append]
 
